@@ -23,6 +23,7 @@ import (
 	"time"
 
 	"verifsim/core"
+	"verifsim/kernel"
 	_ "verifsim/props/all"
 )
 
@@ -311,11 +312,21 @@ func kindOf(m map[string]json.RawMessage) string {
 
 // runScenario executes one explicit scenario in a fresh process.
 func (d *driver) runScenario(build string, raw json.RawMessage, verbose bool) (res *core.Result, crash string, err error) {
+	return d.runSched(build, raw, verbose, nil)
+}
+
+// runSched runs one scenario in a fresh worker process; with sched != nil the
+// schedule is the explicit one given instead of the one drawn from the run seed.
+func (d *driver) runSched(build string, raw json.RawMessage, verbose bool, sched *kernel.Schedule) (res *core.Result, crash string, err error) {
 	w, err := d.spawn(900+int(time.Now().UnixNano()%90), build, 2)
 	if err != nil {
 		return nil, "", err
 	}
-	w.send(map[string]any{"op": "run", "prop": d.prop, "scenario": raw, "verbose": verbose})
+	c := map[string]any{"op": "run", "prop": d.prop, "scenario": raw, "verbose": verbose}
+	if sched != nil {
+		c["explicit"], c["picks"] = true, sched.Picks
+	}
+	w.send(c)
 	recs, crashed, hung := w.finish(120 * time.Second)
 	for _, r := range recs {
 		if kindOf(r) == "result" {
@@ -972,6 +983,10 @@ type replayFile struct {
 	Log      []string        `json:"event_log,omitempty"`
 	Crash    string          `json:"crash,omitempty"`
 	How      string          `json:"how_to_replay"`
+	// Schedule, when present, is the minimised schedule: the replay takes these
+	// scheduling decisions instead of drawing them from the run seed.
+	Schedule     *kernel.Schedule `json:"schedule,omitempty"`
+	ScheduleNote string           `json:"schedule_note,omitempty"`
 }
 
 // report confirms a violation in a fresh process, minimises its scenario and
@@ -1045,6 +1060,11 @@ func (d *driver) report(v violation) (path string, confirmed bool, err error) {
 		bestRes, bestCrash = rr, cc
 	}
 	rf := replayFile{Property: d.prop, Build: v.build, Oracle: v.res.Oracle, Sig: v.res.Sig, Seed: v.res.Seed, Scenario: best, Shrunk: steps, Crash: bestCrash}
+	if bestRes != nil && bestCrash == "" && v.res.Oracle != "HANG" && v.res.Oracle != "PANIC" && !d.noShrink {
+		if sched, fr, note := d.minimiseSchedule(v.build, best, bestRes, same); sched != nil {
+			rf.Schedule, rf.ScheduleNote, bestRes = sched, note, fr
+		}
+	}
 	if steps > 0 {
 		rf.Original = raw
 	}
@@ -1060,6 +1080,102 @@ func (d *driver) report(v violation) (path string, confirmed bool, err error) {
 	b, _ := json.MarshalIndent(rf, "", " ")
 	os.WriteFile(path, append(b, '\n'), 0o644)
 	return path, true, nil
+}
+
+// minimiseSchedule turns the schedule the failing run drew from its seed into an
+// explicit one and simplifies it while the same violation persists: first the
+// tail is cut (steps beyond the list take the default: carry on with the running
+// task), then blocks of decisions are reset to the default. What remains are the
+// context switches the violation needs.
+func (d *driver) minimiseSchedule(build string, raw json.RawMessage, base *core.Result, same func(*core.Result, string) bool) (*kernel.Schedule, *core.Result, string) {
+	if base.Kernels != 1 || len(base.Picks) == 0 {
+		return nil, nil, ""
+	}
+	deadline := time.Now().Add(45 * time.Second)
+	tries := 0
+	var lastRes *core.Result
+	try := func(p []uint16) bool {
+		if tries >= 90 || time.Now().After(deadline) {
+			return false
+		}
+		tries++
+		r, c, e := d.runSched(build, raw, true, &kernel.Schedule{Picks: p})
+		if e != nil || !same(r, c) || r.Diverged {
+			return false
+		}
+		lastRes = r
+		return true
+	}
+	full := append([]uint16(nil), base.Picks...)
+	if !try(full) {
+		return nil, nil, "" // the explicit form of the drawn schedule does not reproduce: keep the seed
+	}
+	best, bestRes := full, lastRes
+	// cut the tail
+	if try(nil) {
+		best, bestRes = nil, lastRes
+	} else {
+		lo, hi := 0, len(best)
+		for hi-lo > 1 {
+			mid := (lo + hi) / 2
+			if try(best[:mid]) {
+				hi, bestRes = mid, lastRes
+			} else {
+				lo = mid
+			}
+			if tries >= 90 || time.Now().After(deadline) {
+				break
+			}
+		}
+		best = append([]uint16(nil), best[:hi]...)
+	}
+	// reset blocks of decisions to the default
+	for blk := (len(best) + 3) / 4; blk >= 1 && tries < 90 && time.Now().Before(deadline); blk /= 2 {
+		for at := 0; at < len(best); at += blk {
+			end := min(at+blk, len(best))
+			any := false
+			for _, x := range best[at:end] {
+				if x != 0 {
+					any = true
+				}
+			}
+			if !any {
+				continue
+			}
+			cand := append([]uint16(nil), best...)
+			for i := at; i < end; i++ {
+				cand[i] = 0
+			}
+			if try(cand) {
+				best, bestRes = cand, lastRes
+			}
+		}
+		if blk == 1 {
+			break
+		}
+	}
+	for len(best) > 0 && best[len(best)-1] == 0 {
+		best = best[:len(best)-1]
+	}
+	// must reproduce in yet another process, twice
+	for i := 0; i < 2; i++ {
+		r, c, e := d.runSched(build, raw, true, &kernel.Schedule{Picks: best})
+		if e != nil || !same(r, c) {
+			return nil, nil, ""
+		}
+		bestRes = r
+	}
+	explicit := 0
+	for _, x := range best {
+		if x != 0 {
+			explicit++
+		}
+	}
+	note := fmt.Sprintf("minimised from the %d decisions drawn from the run seed to %d explicit decisions in the first %d steps (%d replays); every other step takes the default: carry on with the task that ran last if it can, else the candidate that has waited longest", len(full), explicit, len(best), tries)
+	if best == nil {
+		best = []uint16{}
+	}
+	return &kernel.Schedule{Picks: best}, bestRes, note
 }
 
 func sanitize(s string) string {
@@ -1099,7 +1215,7 @@ func (d *driver) replayFile(path string) int {
 	if err := d.build(); err != nil {
 		return d.fatal("%v", err)
 	}
-	res, crash, err := d.runScenario(rf.Build, rf.Scenario, true)
+	res, crash, err := d.runSched(rf.Build, rf.Scenario, true, rf.Schedule)
 	if err != nil {
 		return d.fatal("%v", err)
 	}
